@@ -1,27 +1,56 @@
 import Spine.Heartbeat
+import Spine.Period
 open Spine.HB
+/-! Line protocol for the heartbeat start/stop model (C16). One op per line, one answer per line.
+    Both members live in one model: the code as written is driven with the split events
+    (`stopCheck`/`stopClose`, `startMake`/`startSpawn`), the repaired code with `stopAtomic`/`startAtomic`;
+    the harness's probe phase decides which events it sends.
 
-/-- sequential operations: a stopped stream has exited by the time the next operation is observed -/
+    ops:  period <timeout ms>  -> the refresh period in ms (Spine.HB.period)
+          reset | stopCheck <op> | stopClose <op> | startMake <op> | startSpawn <op> | stopAtomic | startAtomic | obs
+    After every op the streams whose channel has been closed exit (the real goroutines notice the closed channel
+    at once; the harness waits for that).
+    answer: `run=<0|1> streams=<n> live=<n> panic=<0|1> checked=<op,..|->`  -/
+
+/-- a stopped stream has exited by the time the next observation is made -/
 def settle (s : St) : St := s.closed.foldl (fun s c => step s (.exit c)) s
 
-def answer (s : St) (ws : List String) : St × String :=
-  let s' : St :=
-    match ws with
-    | ["start"] => settle (step s .startAtomic)
-    | ["stop"] => settle (step s .stopAtomic)
-    | _ => s
-  (s', s!"{running s'} {s'.streams.length} {s'.panicked}")
+def b (x : Bool) : String := if x then "1" else "0"
 
-partial def loop (h : IO.FS.Stream) (s : St) : IO Unit := do
+def showSt (s : St) : String :=
+  let ch := if s.checked.isEmpty then "-" else ",".intercalate ((s.checked.toArray.qsort (· < ·)).toList.map toString)
+  s!"run={b (running s)} streams={s.streams.length} live={(live s).length} panic={b s.panicked} checked={ch}"
+
+def parse1 (f : Nat → Ev) (x : String) : Option Ev := x.toNat?.map f
+
+def evOf (ws : List String) : Option (List Ev) :=
+  match ws with
+  | ["stopCheck", x] => (parse1 .stopCheck x).map ([·])
+  | ["stopClose", x] => (parse1 .stopClose x).map ([·])
+  | ["startMake", x] => (parse1 .startMake x).map ([·])
+  | ["startSpawn", x] => (parse1 .startSpawn x).map ([·])
+  | ["stopAtomic"] => some [.stopAtomic]
+  | ["startAtomic"] => some [.startAtomic]
+  | ["obs"] => some []
+  | _ => none
+
+partial def loop (h out : IO.FS.Stream) (s : St) : IO Unit := do
   let line ← h.getLine
-  if line.isEmpty then return ()
+  if line.isEmpty then out.flush; return ()
   let ws := (line.trimAscii.toString.splitOn " ").filter (· ≠ "")
   match ws with
-  | ["reset"] => IO.println "ok"; (← IO.getStdout).flush; loop h {}
+  | ["reset"] => out.putStrLn "ok"; out.flush; loop h out {}
+  | ["period", t] =>
+    match t.toNat? with
+    | some t => out.putStrLn (toString (period t)); out.flush; loop h out s
+    | none => out.putStrLn "bad-op"; out.flush; loop h out s
   | _ =>
-    let (s', out) := answer s ws
-    IO.println out
-    (← IO.getStdout).flush
-    loop h s'
+    match evOf ws with
+    | some evs =>
+      let s' := settle (evs.foldl step s)
+      out.putStrLn (showSt s')
+      out.flush
+      loop h out s'
+    | none => out.putStrLn "bad-op"; out.flush; loop h out s
 
-def main : IO Unit := do loop (← IO.getStdin) {}
+def main : IO Unit := do loop (← IO.getStdin) (← IO.getStdout) {}
